@@ -379,6 +379,12 @@ class Case:
             if s == "related":
                 root.add_related(INLINE_PNG, maintype="image", subtype="png", cid="<c16img@x>",
                                  **({"filename": "logo.png"} if self.rng.random() < 0.3 else {}))
+        # a part need not end in a line break (the one before the boundary belongs to the boundary): when more
+        # candidates follow, the message's own plain part is written without one where its CTE allows
+        if b["x"] != "none" and s in ("plain", "alt", "altrel") and b["pe"] in ("qp", "base64"):
+            own = root if not root.is_multipart() else root.get_payload()[0]
+            raw = self.plain.encode(pcs)
+            own.set_payload((base64.encodebytes(raw) if b["pe"] == "base64" else quopri.encodestring(raw)).decode("ascii"))
         # further plain-text body candidates after the body, before the attachments
         if b["x"] in ("footer", "both", "fwd"):
             root.make_mixed()
@@ -460,6 +466,8 @@ class Case:
         def text_part(text, subtype, cs, e):
             p = MIMENonMultipart("text", subtype, charset=cs)
             raw = (text + "\n").encode(cs)
+            if e in ("base64", "qp") and b["x"] != "none" and subtype == "plain":
+                raw = text.encode(cs)                    # no final line break (see _body_modern)
             if e == "base64":
                 p.set_payload(raw)
                 encoders.encode_base64(p)
@@ -713,17 +721,20 @@ class Case:
             """A plain body / full text as the sequence of known texts it consists of (separated by white
             space only); [] for the empty string, [Unknown] if it is anything else."""
             s = (s or "").replace("\r\n", "\n").strip()
-            out = []
+            out, seps = [], []
             texts = sorted(((t, tok) for t, tok in self.rev_body.items() if t), key=lambda kv: -len(kv[0]))
             while s:
                 for t, tok in texts:
-                    if s.startswith(t) and (len(s) == len(t) or s[len(t)].isspace()):
+                    if s.startswith(t):
                         out.append(tok)
-                        s = s[len(t):].lstrip()
+                        rest = s[len(t):]
+                        if rest:
+                            seps.append(rest[0].isspace())      # are consecutive texts kept apart?
+                        s = rest.lstrip()
                         break
                 else:
-                    return [UNKNOWN]
-            return out
+                    return [UNKNOWN], []
+            return out, seps
         subj = c.subject or ""
         words = [self.rev_word.get(w, UNKNOWN) for w in re.split(r"[ \t]+", subj) if w != ""]   # DC2
         atts = []
@@ -740,13 +751,15 @@ class Case:
         # the join law of C03, exactly as mbv/docrun.py observe() states it
         joinok = bool(full == "\n".join(u.get_text() for u in units).strip())
         utype = getattr(units[0].get_metadata(), "body_type", "?") if units else "none"
-        return {"nunits": len(units), "utype": str(utype), "full": body_seq(full), "joinok": joinok,
+        (pseq, psep), (fseq, fsep) = body_seq(c.body_plain), body_seq(full)
+        return {"nunits": len(units), "utype": str(utype), "full": fseq, "fullsep": fsep, "joinok": joinok,
+                "plainsep": psep,
                 "subj": words, "from": box(c.from_email),
                 "to": [box(b) for b in c.to_emails], "cc": [box(b) for b in c.to_cc],
                 "bcc": [box(b) for b in c.to_bcc], "rt": [box(b) for b in c.reply_to],
                 "date": self.project_date(c.metadata.date), "mid": self.rev_id.get(c.metadata.message_id, UNKNOWN),
                 "irt": self.rev_id.get(c.in_reply_to, UNKNOWN),
-                "plain": body_seq(c.body_plain), "html": body(c.body_html), "atts": atts}
+                "plain": pseq, "html": body(c.body_html), "atts": atts}
 
     def project_date(self, s: str):
         if not s:
@@ -774,7 +787,11 @@ def from_line(rng, sender: str | None = None) -> bytes:
 def write_mbox(path, messages: list[bytes], eol: str, rng) -> bytes:
     """mailbox.mbox writes the file (From_ lines, '>From ' escaping, blank line after each message).
     eol: 'asis' (messages as serialised, From_ lines LF), 'lf' (messages converted to LF first),
-    'crlf' (the LF mailbox converted to CRLF as a whole)."""
+    'crlf' (the LF mailbox converted to CRLF as a whole); suffixes '-noblank' (no empty line before the
+    From_ separators: body lines starting with "From " are escaped, so "\n\nFrom " occurs at separators
+    only) and '-nofinal' (no newline at the end of the file)."""
+    mode = eol
+    eol = mode.split("-")[0]
     import os
     if os.path.exists(path):
         os.unlink(path)
@@ -788,6 +805,10 @@ def write_mbox(path, messages: list[bytes], eol: str, rng) -> bytes:
     finally:
         mb.close()
     data = open(path, "rb").read()
+    if "noblank" in mode and eol != "asis":
+        data = data.replace(b"\n\nFrom ", b"\nFrom ")
+    if "nofinal" in mode:
+        data = data.rstrip(b"\n")
     if eol == "crlf":
         data = data.replace(b"\n", b"\r\n")
     return data
